@@ -736,9 +736,6 @@ func refLeaf(res string, n *fltNode, e fltEnt) int {
 		case "date":
 			return tim(e.Date)
 		case "type":
-			if n.Op == "in" {
-				return 0
-			}
 			return str(e.Type)
 		}
 	}
@@ -831,7 +828,7 @@ func refWellFormed(res string, n *fltNode) bool {
 		case "string", "mapstr":
 			switch {
 			case x.Op == "in":
-				ok = ok && x.Val.K == 'l'
+				ok = ok && x.Val.K == 'l' && ty == "string" // no $in on maps (metadata[k])
 				if ty == "string" && x.Key != "reference" && x.Key != "type" {
 					for _, a := range x.Val.L {
 						ok = ok && !refIsPartial(a)
@@ -845,7 +842,7 @@ func refWellFormed(res string, n *fltNode) bool {
 		case "date":
 			ok = ok && cmpOp && x.Val.K == 't'
 		case "num", "mapnum":
-			ok = ok && (cmpOp || x.Op == "exists" && ty == "mapnum") && x.Val.K == 'i'
+			ok = ok && cmpOp && x.Val.K == 'i' // $exists only on string maps
 		case "bool":
 			ok = ok && x.Op == "match" && x.Val.K == 'b'
 		}
@@ -1079,7 +1076,7 @@ func (g *fltGen) validLeaf() *fltNode {
 	case k < 70:
 		return &fltNode{Op: g.cmpOp(), Key: "date", Val: g.timeNear(func(e *fltEnt) *int64 { return &e.Date })}
 	default:
-		if g.odd && r.Chance(30) {
+		if r.Chance(30) {
 			return &fltNode{Op: "in", Key: "type", Val: fltVal{K: 'l', L: []string{"NEW_TRANSACTION", "SET_METADATA"}}}
 		}
 		return &fltNode{Op: "match", Key: "type", Val: fltVal{K: 's', S: Pick(r, []string{"NEW_TRANSACTION", "SET_METADATA", "REVERTED_TRANSACTION", "DELETE_METADATA"})}}
@@ -1226,12 +1223,9 @@ func fltCheck(out *Out, hr *HistRun, store *ledgerstore.Store, c fltCase, seen m
 	}
 	// ---- MONITOR C20 (independent of the Coq model)
 	wf := refWellFormed(c.Res, c.F)
-	var hasBareAccBalance, hasLogTypeIn, hasBalExists, hasMetaIn, hasEmptyOr bool
+	var hasBareAccBalance, hasEmptyOr bool
 	c.F.walk(func(x *fltNode, _ int) {
 		hasBareAccBalance = hasBareAccBalance || (c.Res == "acc" && x.Key == "balance_any" && x.Op != "exists")
-		hasLogTypeIn = hasLogTypeIn || (c.Res == "log" && x.Key == "type" && x.Op == "in")
-		hasBalExists = hasBalExists || ((x.Key == "balance" || x.Key == "balance_any") && x.Op == "exists")
-		hasMetaIn = hasMetaIn || (x.Key == "meta" && x.Op == "in")
 		hasEmptyOr = hasEmptyOr || (x.Op == "or" && len(x.Kids) == 0)
 	}, 0)
 	short := func(xs []string) string {
@@ -1266,26 +1260,9 @@ func fltCheck(out *Out, hr *HistRun, store *ledgerstore.Store, c fltCase, seen m
 			}
 			fltSortKeys(c.Res, k3)
 			tag := "[wrong-selection]"
-			var hasAddrIn, hasPartial bool
-			c.F.walk(func(x *fltNode, _ int) {
-				if x.Key == "address" || x.Key == "account" {
-					hasAddrIn = hasAddrIn || x.Op == "in"
-					hasPartial = hasPartial || (x.Val.K == 's' && refIsPartial(x.Val.S))
-				}
-			}, 0)
-			subset := true // every listed key is an expected one (rows are only LOST)
-			for _, k := range r.Keys {
-				subset = subset && inList(k, refKeys)
-			}
 			switch {
 			case fmt.Sprint(k3) == fmt.Sprint(r.Keys):
 				tag = "[not-over-absent-value]"
-			case c.Res == "vol" && hasAddrIn && hasPartial && subset:
-				tag = "[pushdown-drops-in-branch]"
-			case c.Res == "agg" && hasAddrIn && hasPartial:
-				tag = "[pushdown-drops-in-branch]"
-			case hasMetaIn:
-				tag = "[in-on-metadata-selects-nothing]"
 			case hasEmptyOr:
 				tag = "[empty-or-is-true]"
 			}
@@ -1307,12 +1284,6 @@ func fltCheck(out *Out, hr *HistRun, store *ledgerstore.Store, c fltCase, seen m
 		out.Violation("C20", cs, fmt.Sprintf("%s %s filter %s fails with SQLSTATE 21000 (more than one row returned by a subquery used as an expression); expected {%s}", tag, c.Res, c.F.json(), short(refKeys)))
 	case "panic":
 		tag := "[panic]"
-		switch {
-		case hasLogTypeIn:
-			tag = "[panic-in-on-log-type]"
-		case hasBalExists:
-			tag = "[panic-exists-on-balance]"
-		}
 		out.Violation("C20", cs, fmt.Sprintf("%s %s filter %s panics: %s", tag, c.Res, c.F.json(), r.Msg))
 	default:
 		out.Violation("C20", cs, fmt.Sprintf("[error] %s filter %s fails: %s", c.Res, c.F.json(), r.Msg))
